@@ -259,6 +259,30 @@ func checkPass(run *kit.Run, c cfg, oc optCache, suffix string) {
 			if want := append(append([]int(nil), mwsOf(i)...), handlerID); !same(*t, want) {
 				fail(fmt.Sprintf("Route.HandleMiddleware /r%d", i), *t, want)
 			}
+			// manual dispatch as documented: look the route up, run its chain on the context the lookup returned (which is
+			// bound to that route), through the router and through a read-only transaction
+			for li := 0; li < 2; li++ {
+				r, t = request("GET", pth(i))
+				_, tc = fox.NewTestContext(&nullW{http.Header{}}, r)
+				what := "Router.Lookup"
+				dispatch := func(rte *fox.Route, cc fox.ContextCloser, tsr bool) {
+					if rte == nil || tsr {
+						fail(fmt.Sprintf("%s of %s finds no route", what, pth(i)), nil, nil)
+						return
+					}
+					rte.HandleMiddleware(cc)
+					cc.Close()
+				}
+				if li == 0 {
+					dispatch(f.Lookup(tc.Writer(), r))
+				} else {
+					what = "Txn.Lookup"
+					_ = f.View(func(txn *fox.Txn) error { dispatch(txn.Lookup(tc.Writer(), r)); return nil })
+				}
+				if want := append(append([]int(nil), mwsOf(i)...), handlerID); !same(*t, want) {
+					fail(fmt.Sprintf("%s then Route.HandleMiddleware on the returned context, /r%d", what, i), *t, want)
+				}
+			}
 		}
 		for _, p := range []string{"/ig/", "/ig"} {
 			got, want := serve("GET", p), expected(c, fox.RouteHandler, []int{300})
@@ -335,8 +359,8 @@ func main() {
 		return
 	}
 	// exhaustive scope masks for up to 3 global entries
-	masks := make([]fox.HandlerScope, 0, 31)
-	for m := 1; m < 32; m++ {
+	masks := make([]fox.HandlerScope, 0, 32)
+	for m := 0; m < 32; m++ { // the empty mask too: a middleware scoped to nothing wraps nothing
 		masks = append(masks, fox.HandlerScope(m)<<3)
 	}
 	maxK := run.Pick(2, 3)
@@ -356,7 +380,7 @@ func main() {
 	}
 	rec(nil)
 	run.Parallel(len(cfgs), func(i int) { check(run, cfgs[i]) })
-	run.SetExtra("exhaustive_subspace", fmt.Sprintf("all assignments of the 31 non-empty scope masks to 0..%d global middleware entries (%d configurations) x 5 handler kinds + Route.Handle + Route.HandleMiddleware: enumerated completely", maxK, len(cfgs)))
+	run.SetExtra("exhaustive_subspace", fmt.Sprintf("all assignments of the 32 scope masks (the empty one included) to 0..%d global middleware entries (%d configurations) x 5 handler kinds + Route.Handle + Route.HandleMiddleware: enumerated completely", maxK, len(cfgs)))
 	// random beyond
 	n := run.Pick(400, 1000000)
 	if run.Mode() == "race" {
